@@ -460,11 +460,11 @@ func (g c09G) byteLevel() string {
 
 func c09Gen(rng *rand.Rand, tier string) []Case {
 	g := c09G{rng}
-	perCase, nStruct, nBytes := 500, 5000, 5000
+	perCase, nStruct, nBytes := 500, 3000, 3000
 	if tier == "thorough" {
 		perCase, nStruct, nBytes = 2000, 200000, 200000
 	}
-	var out []Case
+	out := c09Directed()
 	mk := func(prefix string, n int, gen func() string, tag string) {
 		for c := 0; c*perCase < n; c++ {
 			ops := make([]string, 0, perCase+8)
@@ -483,7 +483,7 @@ func c09Gen(rng *rand.Rand, tier string) []Case {
 	mk("s", nStruct, g.structured, "structured")
 	mk("b", nBytes, g.byteLevel, "bytes")
 	// the name-conflict vote with arbitrary reply payloads: short cases (each vote lasts one query timeout)
-	nv := 6
+	nv := 4
 	if tier == "thorough" {
 		nv = 300
 	}
